@@ -138,6 +138,8 @@ def _gen_container(rng, idx, prev, common_pid):
         'vipidx': rng.randrange(len(VIPS)),
         'collide': rng.choice([0, 0, 0, 1, 2, 5]),
     }
+    if random.Random(repr(rng.getstate()[1][:4]) + 'pad').random() < 0.03:
+        spec['pad'] = 1024 * 1024 + 4096
     p = rng.random()
     if p < 0.2:
         pass                                     # no 'passthrough' key at all
@@ -906,6 +908,9 @@ def _run_impl(case, root):
         }
         if 'passthrough' in spec:
             man['passthrough'] = list(spec['passthrough'])
+        if spec.get('pad'):
+            # (side stream) a very large manifest: what `run` saves for `finish` is over a megabyte
+            man['environ'] = [{'name': 'PAD', 'value': 'x' * spec['pad']}]
         return man
 
     def pass_order(kind):
